@@ -556,6 +556,32 @@ impl<'a> VisitMut for Rewriter<'a> {
                 *e = n;
             }
         }
+        // R-itermut: `for X in &mut V BODY` => { let mut __i: usize = 0; while __i < V.len() { let X = &mut V[__i]; __i += 1; BODY } }
+        // (vstd has no usable model of slice::IterMut; elements are visited once each, in order)
+        {
+            let mut rep: Option<Expr> = None;
+            if let Expr::ForLoop(fl) = e {
+                if let Expr::Reference(r) = &*fl.expr {
+                    if r.mutability.is_some() && fl.label.is_none() && pat_is_simple_ident(&fl.pat) {
+                        let v = &r.expr;
+                        let px = &fl.pat;
+                        let stmts = &fl.body.stmts;
+                        rep = Some(parse_quote!({
+                            let mut __i: usize = 0;
+                            while __i < #v.len() {
+                                let #px = &mut #v[__i];
+                                __i += 1;
+                                #(#stmts)*
+                            }
+                        }));
+                    }
+                }
+            }
+            if let Some(n) = rep {
+                fire(self.fired, "R-itermut");
+                *e = n;
+            }
+        }
         // R-enumerate: `for (I, X) in V.iter().enumerate() BODY` =>
         //   { let mut __i: usize = 0; while __i < V.len() { let I = __i; let X = &V[__i]; __i += 1; BODY } }
         {
